@@ -253,6 +253,31 @@ def nested_unit_of(exc):
     return unit if isinstance(unit, str) else None
 
 
+def recursion_via(exc):
+    """what recursed (from the traceback of the real code): 'include' = p_compilerDirective frames (a file including
+    itself / an include cycle), 'superclass' = p_mp_createClass repairing CIM_ERR_INVALID_SUPERCLASS (10) by compiling the
+    superclass file, 'dependency' = p_mp_createClass repairing an unresolved reference/EmbeddedInstance class
+    (codes 4, 6, 1), else 'other'"""
+    tb = exc.__traceback__
+    n_inc = n_super = n_dep = 0
+    while tb is not None:
+        code = tb.tb_frame.f_code
+        if code.co_filename.endswith('_mof_compiler.py'):
+            if code.co_name == 'p_compilerDirective':
+                n_inc += 1
+            elif code.co_name == 'p_mp_createClass':
+                ec = tb.tb_frame.f_locals.get('errcode')
+                if ec == 10:
+                    n_super += 1
+                elif ec in (4, 6, 1):
+                    n_dep += 1
+        tb = tb.tb_next
+    best = max(n_inc, n_super, n_dep)
+    if best < 3:
+        return 'other'
+    return 'include' if best == n_inc else ('superclass' if best == n_super else 'dependency')
+
+
 def new_compiler(handle=None, search_paths=None):
     import pywbem
     if handle is None:
@@ -284,7 +309,7 @@ def outcome_of(func):
             out['str_exc'] = type(e2).__name__
         return out
     except RecursionError as e:
-        return {'exc': 'RecursionError', 'site': None, 'raiser': None, 'rfile': None}
+        return {'exc': 'RecursionError', 'site': None, 'raiser': None, 'rfile': None, 'via': recursion_via(e)}
     except BaseException as e:     # noqa
         if isinstance(e, (KeyboardInterrupt, SystemExit)):
             raise
